@@ -146,6 +146,8 @@ ENTRY = {
     "form": ("form", "kc_form"), "httpx-form": ("form", "kc_form"),
     "path": ("path", "kc_path"), "httpx-path": ("path", "kc_path"),
     # the same data read with the OTHER key semantics (mapping.WithOpaqueKeys given or left out)
+    # a document read with canonicalised (lower-cased) keys, as core/conf does; keys are written lower case
+    "cjson": ("json", "(mkK (mkCfg false false true) seg_dotted)"),
     "okey": ("key", "(mkK (mkCfg false false false) seg_opaque)"),
     "ojson": ("json", "(mkK (mkCfg false false false) seg_opaque)"),
     "dform": ("form", "(mkK (mkCfg true true false) seg_dotted)"),
@@ -2282,6 +2284,70 @@ def struct_containers(rng):
     return cases
 
 
+def overlapping(rng, n):
+    """calls that OVERLAP on one shared unmarshaller, each into a fresh target, each judged on its
+    own input (the model needs nothing new: calls are independent).
+    canon: one Unmarshaler with WithCanonicalKeyFunc; the key function is the gate go-zero offers
+      inside a call: step 0 is held at its Park-th key canonicalisation (first use of the type:
+      per-case unique keys), the other steps run to completion meanwhile, then step 0 goes on.
+    free: the package-level unmarshallers of mapping / rest from several goroutines released together."""
+    cases = []
+    i, st_ = P("int"), P("string")
+    for k in range(n):
+        s0 = fresh("u")
+        lower = k % 4 == 3
+        user, token, other = ("x-user-%s" % s0, "x-token-%s" % s0, "x-other-%s" % s0)
+        spell = (lambda x: x) if lower else (lambda x: rng.choice([x, x.upper(), canon(x)]))
+        neg = k % 3 == 2
+        fs = [F(spell(user), st_, O(opt=True)),
+              F(spell(token), st_, O(opt=True, dep=spell(user) if not lower else user, neg=neg)),
+              F(spell(other), i, O(opt=True, range=R("[1:5]"), dep=spell(token) if not lower else token) if k % 2 else O(range=R("[1:5]")))]
+        if k % 5 == 4:
+            fs.reverse()
+        mode = "cjson" if lower else "header"
+
+        def val(x):
+            return dn(x) if lower and x.isdigit() else ds(x)
+
+        docs = {"both": [(user, val("alice")), (token, val("secret")), (other, val("3"))],
+                "user": [(user, val("bob")), (other, val("3"))],
+                "token": [(token, val("t")), (other, val("3"))],
+                "none": [(other, val("3"))],
+                "range": [(user, val("al")), (token, val("s")), (other, val("9"))]}
+        order = rng.choice([["both", "user", "token"], ["user", "both", "none"], ["token", "both", "user"], ["none", "user", "both"],
+                            ["both", "user"], ["range", "user", "both"], ["both", "token", "user", "none"]])
+        steps = []
+        for name in order:
+            pairs = [(spell(kk) if not lower else kk, v) for kk, v in docs[name]]
+            steps.append({"mode": mode, "type": St(*copy.deepcopy(fs)), "doc": dobj(pairs), "mutate": False})
+        conc = {"kind": "canon", "park": 1 + k % 9, "tag": "json" if lower else "header", "strvals": not lower, "lower": lower}
+        cases.append(finish({"mode": "seq", "procs1": False, "conc": conc, "steps": steps, "intent": "concurrent-gate"}))
+    for k in range(max(4, n // 3)):
+        s0 = fresh("v")
+        key, dep = "x-a-%s" % s0, "x-b-%s" % s0
+        fs_h = [F(key, i, O(opt=True, dep=dep.upper(), range=R("[1:5]"))), F(dep, st_, O(opt=True))]
+        dotted_key = "%s.size" % s0
+        steps = []
+        for j in range(6):
+            pick = (j + k) % 4
+            if pick == 0:
+                steps.append({"mode": "httpx-header", "type": St(*copy.deepcopy(fs_h)), "direct": j % 2 == 0,
+                              "doc": dobj([(dep, ds("d"))] + ([(key, ds("3"))] if j % 3 else []))})
+            elif pick == 1:
+                steps.append({"mode": "httpx-form", "type": St(F(dotted_key, i, O(opt=True, range=R("[1:100]")))), "direct": True,
+                              "doc": dobj([(dotted_key, ds("1000" if j % 2 else "7"))])})
+            elif pick == 2:
+                k0, v = nested_doc(dotted_key, dn("1000" if j % 2 else "7"))
+                steps.append({"mode": rng.choice(["json", "httpx-json", "key"]), "type": St(F(dotted_key, i, O(opt=True, range=R("[1:100]")))),
+                              "doc": dobj([(k0, v)])})
+            else:
+                steps.append({"mode": "httpx-path", "type": St(F(dotted_key, Sl(st_), O(**{"def": "[a,%s]" % s0}))), "doc": dobj([])})
+        for st in steps:
+            st["mutate"] = False
+        cases.append(finish({"mode": "seq", "procs1": False, "conc": {"kind": "free"}, "steps": steps, "intent": "concurrent-free"}))
+    return cases
+
+
 def depchains(rng):
     """optional=dep / optional=!dep chains and cycles over three fields, self-dependencies,
     dependencies on keys that no field has, on dotted keys, on "-"; every subset of supplied fields"""
@@ -2552,6 +2618,39 @@ class C08(Property):
         self.bin = res if ok else None
         return ok, ("" if ok else res)
 
+    # ---- thorough tier: overlapping calls under the race detector ------------------------------
+    def extra(self, ctx):
+        if ctx.tier != "thorough":
+            return []
+        import os
+        out_bin = os.path.join(vlib.HARNESS, "bin", "c08race")
+        rc, out = vlib.sh(["go", "build", "-modfile", vlib.harness_modfile(), "-tags", "verif", "-race", "-o", out_bin, "./cmd/c08"],
+                          cwd=vlib.HARNESS, env=vlib.goenv(), timeout=900)
+        if rc != 0:
+            raise ExecError("c08 does not build with -race: %s" % out[-2000:])
+        rng = random.Random(ctx.seed * 131 + 9)
+        cases = overlapping(rng, 240)
+        ctx.checker_cmds.append("harness/bin/c08race (go build -race ./cmd/c08): %d histories of overlapping calls on shared "
+                                "unmarshallers (gate in the canonical key function / free-running)" % len(cases))
+        old_bin, self.bin = self.bin, out_bin
+        try:
+            payload = None
+            rc, out, res = vlib.go_run(out_bin, [self._wire(c, i) for i, c in enumerate(cases)], tag="c08race", timeout=900,
+                                       env={"GORACE": "halt_on_error=1 exitcode=66"})
+        finally:
+            self.bin = old_bin
+        if "DATA RACE" in out or rc == 66:
+            return [{"what": "data race in core/mapping / rest/httpx under overlapping unmarshal calls", "replay": out[-4000:]}]
+        if rc != 0 or len(res) != len(cases):
+            raise ExecError("c08race rc=%s: %s" % (rc, out[-2000:]))
+        one = lambda x: {"verdict": x["verdict"], "val": x.get("val"), "err": x.get("err", ""), "tag": x.get("tag", ""),
+                         "called": bool(x.get("called")), "alias": x.get("alias", "")}
+        obs = [{"verdict": "seq", "steps": [one(x) for x in r["steps"]]} for r in res]
+        rs = vlib.coq_eval_cases(self.id, self.check_module, [self.coq_case(c, o) for c, o in zip(cases, obs)])
+        bad = [(c, o) for c, o, (a, p) in zip(cases, obs, rs) if not p]
+        ctx.notes.append("race monitor: %d histories of overlapping calls, no data race, %d property failures" % (len(cases), len(bad)))
+        return [{"what": self.describe_failure(c, o), "replay": {"case": c, "observed": o}} for c, o in bad[:3]]
+
     # ---- cases -----------------------------------------------------------------
     def corpus(self):
         i, f64 = P("int"), P("float64")
@@ -2613,6 +2712,7 @@ class C08(Property):
         big = tier == "thorough"
         _SALT[0] = 0
         cases = crosskind(rng, 40 if not big else 400)
+        cases += overlapping(rng, 60 if not big else 600)
         cases += scribbles(rng)
         cases += mutated_results(rng)
         cases += sequences(rng, 120 if not big else 1200)
@@ -2640,10 +2740,13 @@ class C08(Property):
         return cases
 
     # ---- execution ----------------------------------------------------------------
-    def execute(self, cases, ctx):
+    def _wire(self, c, i):
+        return self._wire_fn()(c, i)
+
+    def _wire_fn(self):
         def wire(c, i):
             if c["mode"] == "seq":
-                return {"id": i, "mode": "seq", "procs1": bool(c.get("procs1")),
+                return {"id": i, "mode": "seq", "procs1": bool(c.get("procs1")), "conc": c.get("conc"),
                         "steps": [wire(st, j) for j, st in enumerate(c["steps"])]}
             if c["mode"] == "scribble":
                 return {"id": i, "mode": "scribble", "type": St(), "ctype": c["tag"], "entries": c["entries"]}
@@ -2657,6 +2760,10 @@ class C08(Property):
                             "body": rq.get("body"), "ctype": rq.get("ctype"), "postform": bool(rq.get("postform"))}
             return w
 
+        return wire
+
+    def execute(self, cases, ctx):
+        wire = self._wire_fn()
         payload = [wire(c, i) for i, c in enumerate(cases)]
         if len(payload) <= 320:
             # small batches (shrink candidates, replays): one process per case, so that state the
